@@ -1,0 +1,145 @@
+//! Verification hooks (cargo feature `verif-hooks`, off by default).
+//!
+//! Observability only: nothing here changes what the evaluator computes. With the
+//! feature off this module is not compiled and the call sites vanish.
+//!
+//! * H1 `enter_eval`   - stack low-water mark / expression-recursion counters per thread
+//! * H2 `on_call`      - append-only log of function calls (only while recording)
+//! * H3 `on_heap_mut`  - append-only log of heap cells handed out mutably
+
+use crate::values::Value;
+use std::cell::{Cell, RefCell};
+
+#[derive(Debug, Clone)]
+pub struct CallEvent {
+    pub name: String,
+    pub is_builtin: bool,
+    pub this_value: Value,
+    pub args: Vec<Value>,
+    pub call_depth: usize,
+}
+
+thread_local! {
+    static RECORDING: Cell<bool> = const { Cell::new(false) };
+    static CALLS: RefCell<Vec<CallEvent>> = const { RefCell::new(Vec::new()) };
+    static HEAP_MUTS: RefCell<Vec<usize>> = const { RefCell::new(Vec::new()) };
+    static STACK_BASE: Cell<usize> = const { Cell::new(0) };
+    static STACK_LOW: Cell<usize> = const { Cell::new(usize::MAX) };
+    static MAX_CALL_DEPTH: Cell<usize> = const { Cell::new(0) };
+    static EVAL_ENTRIES: Cell<u64> = const { Cell::new(0) };
+    static LOG_PATH: RefCell<Option<Option<String>>> = const { RefCell::new(None) };
+}
+
+/// Snapshot of the H1 counters of the current thread.
+#[derive(Debug, Clone, Copy, Default)]
+pub struct StackStats {
+    /// bytes between the first `enter_eval` frame seen since the last reset and the deepest one
+    pub stack_used: usize,
+    pub max_call_depth: usize,
+    pub eval_entries: u64,
+}
+
+/// Switch recording of H2/H3 events on or off for the current thread.
+pub fn set_recording(on: bool) {
+    RECORDING.with(|r| r.set(on));
+}
+
+/// Drain the H2 call log of the current thread.
+pub fn take_calls() -> Vec<CallEvent> {
+    CALLS.with(|c| std::mem::take(&mut *c.borrow_mut()))
+}
+
+/// Drain the H3 log (heap indices passed to `Heap::get_mut`) of the current thread.
+pub fn take_heap_muts() -> Vec<usize> {
+    HEAP_MUTS.with(|c| std::mem::take(&mut *c.borrow_mut()))
+}
+
+pub fn reset_stack_stats() {
+    STACK_BASE.with(|b| b.set(0));
+    STACK_LOW.with(|b| b.set(usize::MAX));
+    MAX_CALL_DEPTH.with(|b| b.set(0));
+    EVAL_ENTRIES.with(|b| b.set(0));
+}
+
+pub fn stack_stats() -> StackStats {
+    let base = STACK_BASE.with(|b| b.get());
+    let low = STACK_LOW.with(|b| b.get());
+    StackStats {
+        stack_used: if low == usize::MAX { 0 } else { base.saturating_sub(low) },
+        max_call_depth: MAX_CALL_DEPTH.with(|b| b.get()),
+        eval_entries: EVAL_ENTRIES.with(|b| b.get()),
+    }
+}
+
+fn log_path() -> Option<String> {
+    LOG_PATH.with(|p| {
+        let mut p = p.borrow_mut();
+        if p.is_none() {
+            *p = Some(std::env::var("BLOTS_VERIF_STACK_LOG").ok());
+        }
+        p.as_ref().unwrap().clone()
+    })
+}
+
+/// H1: called at the top of `evaluate_ast`.
+#[inline(never)]
+pub fn enter_eval(call_depth: usize) {
+    let marker = 0u8;
+    let addr = &marker as *const u8 as usize;
+    STACK_BASE.with(|b| {
+        if b.get() == 0 {
+            b.set(addr);
+        }
+    });
+    STACK_LOW.with(|l| {
+        if addr < l.get() {
+            l.set(addr);
+        }
+    });
+    EVAL_ENTRIES.with(|e| e.set(e.get() + 1));
+    let new_max = MAX_CALL_DEPTH.with(|m| {
+        if call_depth > m.get() {
+            m.set(call_depth);
+            true
+        } else {
+            false
+        }
+    });
+    // The CLI leaves through process::exit, so a log (if asked for) is appended whenever a
+    // new maximum call depth is reached at a multiple of 50.
+    if new_max && call_depth % 50 == 0 {
+        if let Some(path) = log_path() {
+            use std::io::Write;
+            if let Ok(mut f) = std::fs::OpenOptions::new().create(true).append(true).open(path) {
+                let s = stack_stats();
+                let _ = writeln!(
+                    f,
+                    "depth={} stack_used={} eval_entries={}",
+                    call_depth, s.stack_used, s.eval_entries
+                );
+            }
+        }
+    }
+}
+
+/// H2: called in `FunctionDef::call` once the arity check has passed.
+pub fn on_call(name: String, is_builtin: bool, this_value: Value, args: &[Value], call_depth: usize) {
+    if RECORDING.with(|r| r.get()) {
+        CALLS.with(|c| {
+            c.borrow_mut().push(CallEvent {
+                name,
+                is_builtin,
+                this_value,
+                args: args.to_vec(),
+                call_depth,
+            })
+        });
+    }
+}
+
+/// H3: called in `Heap::get_mut`.
+pub fn on_heap_mut(index: usize) {
+    if RECORDING.with(|r| r.get()) {
+        HEAP_MUTS.with(|c| c.borrow_mut().push(index));
+    }
+}
